@@ -1,6 +1,7 @@
 import Sudachi.Model.Wire
 import Sudachi.Model.CharCat
 import Sudachi.Model.Edit
+import Sudachi.Model.Lattice
 /-! Line protocol dispatcher: one case per line in, one answer per line out. -/
 namespace Driver
 
@@ -12,6 +13,7 @@ def answer (line : String) : String :=
     | "C01" => if String.ofList op == "morph" then EditM.handleMorph rest else EditM.handle rest
     | "C17" => CharCat.handle rest
     | "C08" => EditM.handle rest
+    | "C02" => Vit.handle rest
     | _ => "bad-op"
   | _ => "bad-op"
 
